@@ -46,9 +46,12 @@ func (s *lpStats) flush(t *vlib.T) {
 func ratFloat(r rat) float64 { f, _ := r.Float64(); return f }
 
 // callSimplex runs lp.Simplex on copies of the data and reports a panic as an error string.
-func callSimplex(c []float64, m, n int, a []float64, b []float64, basis []int) (optF float64, x []float64, err error, panicked string) {
+func callSimplex(g *lpGuard, c []float64, m, n int, a []float64, b []float64, basis []int) (optF float64, x []float64, err error, panicked string) {
 	defer func() {
 		if e := recover(); e != nil {
+			if _, ok := e.(abandonSentinel); ok {
+				panic(e)
+			}
 			panicked = fmt.Sprint(e)
 		}
 	}()
@@ -59,7 +62,9 @@ func callSimplex(c []float64, m, n int, a []float64, b []float64, basis []int) (
 	if basis != nil {
 		ib = append([]int(nil), basis...)
 	}
+	g.mark(func() string { return fmt.Sprintf("%s initialBasic=%v", fmtProg(m, n, a, b, c), basis) })
 	optF, x, err = lp.Simplex(cc, A, bb, lpTol, ib)
+	g.returned()
 	for i, v := range A.RawMatrix().Data {
 		if v != a[i] {
 			panicked = "Simplex modified its input matrix A"
@@ -269,11 +274,13 @@ func genLPStd(g *vlib.G) {
 		if sp.m == 1 {
 			g.Case(fmt.Sprintf("m=1 n=%d alpha=%v", sp.n, sp.alpha), func(t *vlib.T) {
 				st := newLPStats()
-				for r0 := 0; r0 < rows0; r0++ {
-					a := make([]float64, sp.n)
-					digits(r0, k, sp.n, sp.alpha, a)
-					lpMatrix(t, st, &sp, a, r0)
-				}
+				runGuarded(t, func(gd *lpGuard) {
+					for r0 := 0; r0 < rows0; r0++ {
+						a := make([]float64, sp.n)
+						digits(r0, k, sp.n, sp.alpha, a)
+						lpMatrix(t, gd, st, &sp, a, r0)
+					}
+				})
 				st.flush(t)
 			})
 			continue
@@ -292,14 +299,16 @@ func genLPStd(g *vlib.G) {
 					a := make([]float64, sp.m*sp.n)
 					copy(a, row)
 					lo, hi := inner*ch/chunks, inner*(ch+1)/chunks
-					for in := lo; in < hi; in++ {
-						// deterministic sub-sampling of the matrices of a block
-						if sp.strideA > 1 && (in+r0*7)%sp.strideA != 0 {
-							continue
+					runGuarded(t, func(gd *lpGuard) {
+						for in := lo; in < hi; in++ {
+							// deterministic sub-sampling of the matrices of a block
+							if sp.strideA > 1 && (in+r0*7)%sp.strideA != 0 {
+								continue
+							}
+							digits(in, k, (sp.m-1)*sp.n, sp.alpha, a[sp.n:])
+							lpMatrix(t, gd, st, &sp, a, r0*inner+in)
 						}
-						digits(in, k, (sp.m-1)*sp.n, sp.alpha, a[sp.n:])
-						lpMatrix(t, st, &sp, a, r0*inner+in)
-					}
+					})
 					st.flush(t)
 				})
 			}
@@ -308,7 +317,7 @@ func genLPStd(g *vlib.G) {
 }
 
 // lpMatrix runs every (b, c) of the space on one matrix A.
-func lpMatrix(t *vlib.T, st *lpStats, sp *lpSpace, a []float64, aIdx int) {
+func lpMatrix(t *vlib.T, gd *lpGuard, st *lpStats, sp *lpSpace, a []float64, aIdx int) {
 	m, n := sp.m, sp.n
 	s := newStdMatrix(m, n, a)
 	bAlpha := []float64{0, 1, 2}
@@ -341,7 +350,7 @@ func lpMatrix(t *vlib.T, st *lpStats, sp *lpSpace, a []float64, aIdx int) {
 			} else {
 				ans = s.solve(b, c, false)
 			}
-			optF, x, err, pan := callSimplex(c, m, n, a, b, nil)
+			optF, x, err, pan := callSimplex(gd, c, m, n, a, b, nil)
 			oc, vclass, msg := judgeSimplex(s, a, b, c, &ans, optF, x, err, pan)
 			st.n[oc]++
 			t.Count("lp_programs", 1)
@@ -353,7 +362,7 @@ func lpMatrix(t *vlib.T, st *lpStats, sp *lpSpace, a []float64, aIdx int) {
 			}
 			if sweep && ans.precondOK {
 				for _, basis := range ans.feasible {
-					optF, x, err, pan := callSimplex(c, m, n, a, b, basis)
+					optF, x, err, pan := callSimplex(gd, c, m, n, a, b, basis)
 					oc, vclass, msg := judgeSimplex(s, a, b, c, &ans, optF, x, err, pan)
 					st.n["basis:"+oc]++
 					t.Count("lp_initial_basis_runs", 1)
